@@ -237,6 +237,17 @@ def external_programs():
         ep = space.endpoint("go", "POST", "/go/{p}" if pn in plain else "/go", args, returns=space.opt(ext))
         err = space.error("ExtErr", "Verif", "INTERNAL", [space.field("s", ext)], [space.field("u", space.opt(ext))], PKG)
         progs.append(Program("ext_%s" % pn.lower(), "external type with fallback %s in every position" % pn.lower(), space.ir(types, [space.service("ExtSvc", [ep], PKG)], [err]), cls="external:" + pn.lower()))
+    # externals whose fallback is itself a collection / optional / alias / object
+    fallbacks = [("List", space.lst(S)), ("Set", space.st(S)), ("Opt", space.opt(S)), ("Map", space.mp(S, I)), ("OptList", space.opt(space.lst(I))), ("AliasOpt", R("AliasOpt")), ("Obj", R("Obj")), ("SetDouble", space.st(space.prim("DOUBLE")))]
+    for fname, ft in fallbacks:
+        ext = space.external("Ext" + fname, "com.elsewhere", ft)
+        types = [space.obj("Holder", [space.field("plain", ext), space.field("many", space.lst(ext)), space.field("vals", space.mp(S, ext))] + ([space.field("maybe", space.opt(ext))] if fname not in ("Opt", "OptList", "AliasOpt") else []), PKG),
+                 space.union("Pick", [space.field("one", ext)], PKG), space.alias("Al", ext, PKG)]
+        args = [space.arg("body", ext, "body")]
+        if fname in ("List", "Set", "Opt", "SetDouble"):
+            args += [space.arg("q", ext, "query", "q"), space.arg("h", ext, "header", "X-H") if fname == "Opt" else space.arg("q2", ext, "query", "q2")]
+        ep = space.endpoint("go", "POST", "/go", args, returns=ext)
+        progs.append(Program("extc_%s" % fname.lower(), "external type whose fallback is %s" % fname, space.ir(space.FIXED_TYPES + types, [space.service("ExtSvc", [ep], PKG)], []), cls="external-fallback:" + fname.lower()))
     return progs
 
 
